@@ -281,29 +281,8 @@ def counting_parts(func, name):
     inc = incs[0]
     if not (isinstance(inc.op, ast.Add) and isinstance(inc.value, ast.Constant) and inc.value.value == 1):
         return None
-    found = {}
-
-    def rec(n, stack):
-        for c in ast.iter_child_nodes(n):
-            if isinstance(c, (ast.FunctionDef, ast.AsyncFunctionDef, ast.ClassDef, ast.Lambda)) and c is not func.node:
-                continue
-            ns = stack
-            if isinstance(n, (ast.For, ast.AsyncFor)) and c in n.body:
-                ns = stack + [('for', n)]
-            elif isinstance(n, ast.If) and c in n.body:
-                ns = stack + [('if', n.test, True)]
-            elif isinstance(n, ast.If) and c in n.orelse:
-                ns = stack + [('if', n.test, False)]
-            elif isinstance(n, ast.While) and c in n.body:
-                ns = stack + [('while', n)]
-            if c is inc:
-                found['ns'] = ns
-                return True
-            if rec(c, ns):
-                return True
-        return False
-    rec(func.node, [])
-    ns = found.get('ns')
+    from ..index import guard_stack
+    ns = guard_stack(func.node, inc)
     if not ns:
         return None
     fors = [i for i, x in enumerate(ns) if x[0] == 'for']
